@@ -32,7 +32,7 @@ static int64_t convert(int type, int32_t x) {
     return 0;
 }
 
-struct Cfg { int core, chips; bool loud; bool play; int request; int type; unsigned container; int layout; /*0 planar c, 1 interleaved 2c, 2 interleaved 2c+3*/ long rate; };
+struct Cfg { int core, chips; bool loud; bool play; int request; int type; unsigned container; int layout; /*0 planar c, 1 interleaved 2c, 2 interleaved 2c+3*/ long rate; int prefix = 0; /* size of an earlier plain opn2_generate/opn2_play call of the same history (0 = none) */ };
 
 static std::string cfg_str(const Cfg &c, pl::Instance *I) { char b[240]; snprintf(b, sizeof b, "%s, %d chip(s), %s, %s(%d), %s/container %u, %s", I ? opn2_chipEmulatorName(I->dev) : "?", c.chips, c.loud ? "loud" : "quiet", c.play ? "opn2_playFormat" : "opn2_generateFormat", c.request, TN[c.type], c.container, c.layout == 0 ? "planar offset=c" : c.layout == 1 ? "interleaved offset=2c" : "interleaved offset=2c+3"); return b; }
 
@@ -57,7 +57,8 @@ static void run_case(const Cfg &c, en::CaseOut &o) {
     pl::g_use_null_chips = false;
     pl::Instance R, A, Bi;
     if(!make(R, c) || !make(A, c) || !make(Bi, c)) { o.fail("C13/harness", "setup failed"); return; }
-    std::string ctx = " [" + cfg_str(c, &A) + "]"; char b[400];
+    std::string ctx = " [" + cfg_str(c, &A) + (c.prefix ? ", after an earlier call of " + std::to_string(c.prefix) + " samples" : std::string()) + "]"; char b[400];
+    if(c.prefix > 0) { static short pre[8192]; for(pl::Instance *X : {&R, &A, &Bi}) { if(c.play) opn2_play(X->dev, c.prefix, pre); else opn2_generate(X->dev, c.prefix, pre); } }   // leaves its fractional-sample carry behind
     int even = c.request - (c.request % 2); if(even < 0) even = 0;
     int cap = even / 2 + 4;
     std::vector<double> ref((size_t)cap * 2 + 8, 0.0);
@@ -139,6 +140,13 @@ int main(int argc, char **argv) {
       en::Family F; F.name = "request_sizes"; F.count = 16 * 6 * 2 * 2 * 3 * 2; F.chunk = 2; F.budget_s = 120; F.describe = "request sizes {-4..3, 1022..1026, 2048, 69999, 70000} x {S16/2, F32/4, U8/1, U16/4, S24/2 (unsupported), S32/4} x cores {GENS, MAME} x chips {1,4} x 3 layouts x {generate, play to the end of the song}";
       F.run = [](uint64_t i, en::CaseOut &o) { Cfg c; uint64_t r = i; c.request = SIZES[r % 16]; r /= 16; int t = (int)(r % 6); c.type = TY[t][0]; c.container = (unsigned)TY[t][1]; r /= 6; c.core = (r % 2) ? OPNMIDI_EMU_MAME : OPNMIDI_EMU_GENS; r /= 2; c.chips = (r % 2) ? 4 : 1; r /= 2; c.layout = (int)(r % 3); r /= 3; c.play = r % 2; c.loud = true; c.rate = 22050;
         if(i % 97 == 0) o.sample = cfg_str(c, NULL); run_case(c, o); };
+      fams.push_back(F); }
+    { // two-call histories: the second call starts from whatever fractional carry / period remainder the first one left
+      static std::vector<int> PRE; for(int v = 2; v <= 128; v += 2) PRE.push_back(v); for(int v : {510, 512, 514, 1022, 1024, 1026}) PRE.push_back(v);
+      static const int SEC[] = {1026, 2048, 4100}; static const long RT[] = {44100, 48000, 22050}; static const int TY2[][2] = {{OPNMIDI_SampleType_S16, 2}, {OPNMIDI_SampleType_F32, 4}};
+      en::Family F; F.name = "two_call_histories"; F.count = (uint64_t)PRE.size() * 3 * 3 * 2 * 2 * 2; F.chunk = 8; F.budget_s = 120; F.describe = "an earlier call of every even size 2..128 (and 510..514, 1022..1026) followed by a call of {1026, 2048, 4100} samples x sample rate {44100, 48000, 22050} x {S16/2, F32/4} x layout {planar, interleaved} x {generate, play}; GENS, 1 chip, loud";
+      F.run = [](uint64_t i, en::CaseOut &o) { Cfg c; uint64_t r = i; c.prefix = PRE[r % PRE.size()]; r /= PRE.size(); c.request = SEC[r % 3]; r /= 3; c.rate = RT[r % 3]; r /= 3; int t = (int)(r % 2); c.type = TY2[t][0]; c.container = (unsigned)TY2[t][1]; r /= 2; c.layout = (int)(r % 2); r /= 2; c.play = r % 2; c.core = OPNMIDI_EMU_GENS; c.chips = 1; c.loud = true;
+        if(i % 499 == 0) o.sample = cfg_str(c, NULL) + " after " + std::to_string(c.prefix); run_case(c, o); };
       fams.push_back(F); }
     { // every request size in a range: the 512-frame period splitting and the odd-sample handling depend on the exact value
       static std::vector<int> SZ; if(thorough) { for(int v = 0; v <= 2200; v++) SZ.push_back(v); } else { for(int v = 0; v <= 40; v++) SZ.push_back(v); for(int k = 1; k <= 4; k++) for(int d = -4; d <= 4; d++) SZ.push_back(1024 * k + d); }
